@@ -5,6 +5,7 @@ import (
 	"fmt"
 	"os"
 	"runtime"
+	"strings"
 	"syscall"
 	"testing"
 	"time"
@@ -33,6 +34,10 @@ func c13Tree() *hx.Node {
 		hx.RawFile("k3y.iso", k3y),
 		hx.Dir("list", hx.File("f1", 10, 68), hx.File("f2", 2048, 69), hx.Dir("d1"), hx.Link("lf", "f1"), hx.Link("ld", "d1"), hx.Link("dangling", "nowhere")),
 		hx.Dir("up"), hx.Dir("empty"),
+		hx.Dir("special", hx.Fifo("pipe"), hx.File("beside", 5, 71)),
+		// a raw CD image inside the sector-size detection window, with a sector size that is not the default
+		&hx.Node{Name: "cd2448.bin", Kind: "file", Size: 0x200000 + 2448*7, Seed: 70, Sparse: true,
+			Patches: []hx.Patch{{Off: 24 + 16*2448, Data: "\x01CD001\x01\x00"}}, Spans: [][2]int64{{0, 24 + 40*2448}}},
 	)
 }
 
@@ -90,12 +95,17 @@ func c13Scenarios() []c13Scenario {
 		{"dvd-image", false, []hx.Req{P("OPEN_FILE", "/***DVD***/GAME"), R("READ_CRIT", 4096, 0), R("READ_FILE", 2048, 16*2048), R("READ_CRIT", 90000, 28*2048), R("READ_FILE", 70000, 40*2048),
 			P("OPEN_FILE", "/***DVD***/GAME"), R("READ_FILE", 131072, 0), P("OPEN_FILE", "/small.txt")}},
 		{"ps3-image", false, []hx.Req{P("OPEN_FILE", "/***PS3***/PS3GAME"), R("READ_CRIT", 4096, 0), R("READ_FILE", 65536, 30*2048), P("OPEN_FILE", "/***PS3***/GAME"), P("OPEN_FILE", "/CLOSEFILE")}},
-		{"encrypted-adjacent-key", false, []hx.Req{P("OPEN_FILE", "/PS3ISO/g.iso"), R("READ_FILE", 16384, 0), R("READ_CRIT", 3000, 5000), R("READ_FILE", 100, 6143), P("OPEN_FILE", "/PS3ISO/g.iso"), R("READ_CRIT", 2048, 3*2048)}},
-		{"encrypted-redkey", false, []hx.Req{P("OPEN_FILE", "/PS3ISO/r.iso"), R("READ_FILE", 16384, 0), R("READ_CRIT", 4097, 6000), P("STAT", "/PS3ISO/r.iso")}},
+		{"encrypted-adjacent-key", false, []hx.Req{P("OPEN_FILE", "/PS3ISO/g.iso"), R("READ_FILE", 16384, 0), R("READ_CRIT", 3000, 5000), R("READ_FILE", 100, 6143), P("OPEN_FILE", "/PS3ISO/g.iso"), R("READ_CRIT", 2048, 3*2048),
+			R("READ_CRIT", 3000, 4*2048+100), R("READ_FILE", 6000, 4*2048), R("READ_FILE", 2000, 4*2048+40)}}, // reads that begin inside the surely encrypted sector 4
+		{"encrypted-redkey", false, []hx.Req{P("OPEN_FILE", "/PS3ISO/r.iso"), R("READ_FILE", 16384, 0), R("READ_CRIT", 4097, 6000), R("READ_FILE", 2500, 4*2048), P("STAT", "/PS3ISO/r.iso")}},
 		{"3k3y", false, []hx.Req{P("OPEN_FILE", "/k3y.iso"), R("READ_FILE", 16384, 0), R("READ_CRIT", 300, 0xF60), R("READ_FILE", 5000, 0x1000)}},
 		{"listing", false, []hx.Req{P("OPEN_DIR", "/list"), {Op: "READ_ENTRY"}, {Op: "READ_ENTRY2"}, {Op: "READ_ENTRY"}, {Op: "READ_ENTRY2"}, {Op: "READ_ENTRY"}, {Op: "READ_ENTRY"}, {Op: "READ_ENTRY"},
 			P("OPEN_DIR", "/list"), {Op: "READ_DIR"}, {Op: "READ_DIR"}, P("OPEN_DIR", "/GAME"), {Op: "READ_ENTRY2"}, P("OPEN_DIR", "/missing"), P("OPEN_DIR", "/plain.bin"), {Op: "READ_DIR"},
 			P("STAT", "/list/ld"), P("DIR_SIZE", "/list"), P("DIR_SIZE", "/GAME"), P("OPEN_DIR", "/empty"), {Op: "READ_ENTRY"}}},
+		{"cd-image", false, []hx.Req{P("OPEN_FILE", "/cd2448.bin"), {Op: "READ_CD", Start: 1, Count: 2}, {Op: "READ_CD", Start: 16, Count: 1}, R("READ_FILE", 3000, 24+2448),
+			P("OPEN_FILE", "/cd2448.bin"), {Op: "READ_CD", Start: 3, Count: 1}}},
+		{"special-file", true, []hx.Req{P("STAT", "/special/pipe"), P("OPEN_FILE", "/special/pipe"), P("OPEN_DIR", "/special/pipe"), P("OPEN_DIR", "/special"), {Op: "READ_DIR"},
+			P("CREATE", "/special/pipe"), P("OPEN_FILE", "/special/beside"), R("READ_FILE", 10, 0), P("DIR_SIZE", "/special")}},
 		{"uploads", true, []hx.Req{P("CREATE", "/up/new.bin"), {Op: "WRITE", N: 70000, Seed: 9}, {Op: "WRITE", N: 100, Seed: 10}, P("CREATE", "/up/second.bin"), {Op: "WRITE", N: 10, Seed: 11},
 			P("CREATE", "/small.txt"), P("MKDIR", "/up/dir"), P("DELETE", "/up/new.bin"), P("RMDIR", "/up/dir"), P("CREATE", "/up"), P("OPEN_FILE", "/up/second.bin"), R("READ_FILE", 100, 0)}},
 		{"mixed-state", true, []hx.Req{P("OPEN_DIR", "/list"), {Op: "READ_ENTRY"}, P("OPEN_FILE", "/***DVD***/GAME"), R("READ_CRIT", 5000, 28*2048), P("CREATE", "/up/x.bin"), {Op: "WRITE", N: 5000, Seed: 12},
@@ -105,7 +115,7 @@ func c13Scenarios() []c13Scenario {
 
 type c13Case struct {
 	Scenario string `json:"scenario"`
-	// Mode: baseline | fail-op | short-read | ending | pair
+	// Mode: baseline | fail-op | short-read | partial-read | ending | pair
 	Mode   string `json:"mode"`
 	K      int    `json:"k"`      // op / read index, or prefix length for endings
 	K2     int    `json:"k2"`     // second fault (pair) ; -1 none
@@ -133,8 +143,14 @@ func c13Touched(c c13Case, clean string) bool {
 	m := hx.NewModel("/", true)
 	for _, r := range c.scenario().Reqs {
 		switch r.Op {
-		case "CREATE", "DELETE", "RMDIR":
-			if _, cl, _ := m.Resolve(string(r.Path)); cl == clean {
+		case "CREATE", "DELETE", "RMDIR", "MKDIR":
+			_, cl, _ := m.Resolve(string(r.Path))
+			if cl == clean {
+				return true
+			}
+			// the image's key sources count as well: a key file that was replaced, removed or added decides how
+			// (and whether) the image can be opened
+			if strings.HasPrefix(clean, "/PS3ISO/") && (strings.HasPrefix(cl, "/PS3ISO") || strings.HasPrefix(cl, "/REDKEY")) {
 				return true
 			}
 		}
@@ -171,6 +187,11 @@ func runC13With(c c13Case, st *hx.Stats, readTimeout time.Duration) (*c13Result,
 		if c.Mode == "pair" {
 			led.FailAt2 = c.K2
 		}
+	case "partial-read":
+		// the read comes back with some bytes AND an error
+		led.ShortAt = c.K
+		led.ShortTo = 1 + (c.K*977+c.Errno)%3000
+		led.ShortErr = syscall.EIO
 	case "short-read":
 		led.ShortAt = c.K
 		led.ShortTo = 1 + c.K%37
@@ -380,6 +401,9 @@ func TestC13Enum(t *testing.T) {
 			}
 			for k := 0; k < base.reads; k++ {
 				if !yield(c13Case{Scenario: sc.Name, Mode: "short-read", K: k, K2: -1}) {
+					return
+				}
+				if !yield(c13Case{Scenario: sc.Name, Mode: "partial-read", K: k, K2: -1, Errno: k * 7}) {
 					return
 				}
 			}
